@@ -671,7 +671,8 @@ func (self Node) Indexes(ins []PathNode, opts *Options) error {
 				continue
 			}
 			k := id.Path.int()
-			if k >= it.size {
+			// size 0 means "not counted yet" (a list obtained through Field / a lazy load), as in Index
+			if it.size > 0 && k >= it.size {
 				continue
 			}
 			if k == i {
